@@ -50,6 +50,7 @@ def string := P (.str dms)
 def bytesMax (max : Nat) := P (.bytes max)
 def key := P .key
 def nbt (named : Bool) := P (.blob (nbtLen named))
+def nbtC (named : Bool) := P (.blob (nbtCompoundLen named))
 def playerKey := P (.blob playerKeyLen)
 def zeroUUID : Val := .bytes (List.replicate 16 0)
 
@@ -68,6 +69,12 @@ def lastSeen (proto : Int) : Schema :=
 /-- tagged union with the cases listed for tags 0, 1, 2, … and a default for every other tag -/
 def swL (tag : Prim) (cases : List Schema) (dflt : Schema) : Schema :=
   .sw tag cases.length (fun i => cases.get i) dflt
+
+/-- `DeathPosition.encode` / `decodeDeathPosition` -/
+def deathPos : Schema := .opt true (seqs [string, i64])
+
+/-- the dimension identifier; `DimensionInfo.Validate` rejects an empty one below 1.20.5 -/
+def dimensionId (proto : Int) : Schema := if proto < Minecraft_1_20_5 then P (.strNE dms) else string
 
 /-- the sound-source ordinal: `UI` (10) is rejected below 1.21.5 -/
 def soundSource (proto : Int) : Schema :=
@@ -176,6 +183,51 @@ def schemaOf (name : String) (c : Ctx) : Option PSchema :=
       if p ≥ Minecraft_1_13 then
         seqs [varint, varint, varint, .arr .empty none (seqs [string, .opt true (component p)])]
       else .arr .empty none string
+  | "packet.JoinGame" => some <| (fun b => { body := b, vals := decide (p ≥ Minecraft_1_20_2) }) <|
+      -- (vals: below 1.20.2 the two name-length bytes of a root tag are skipped unread, so Go forgets them)
+      let named := decide (p < Minecraft_1_20_2)
+      if p ≥ Minecraft_1_20_2 then fields [
+        [i32, bool, .arr .err none string, varint, varint, varint, bool, bool, bool],
+        [if p ≥ Minecraft_1_20_5 then varint else dimensionId p],
+        [string, i64, u8, u8, bool, bool, deathPos, varint],
+        onlyIf (p ≥ Minecraft_1_21_2) [varint],
+        onlyIf (p ≥ Minecraft_26_2) [bool],
+        onlyIf (p ≥ Minecraft_1_20_5) [bool]]
+      else if p ≥ Minecraft_1_16 then fields [
+        [i32],
+        (if p ≥ Minecraft_1_16_2 then [bool, u8] else [u8]),      -- before 1.16.2 the hardcore flag is bit 3 of the game mode
+        [u8, .arr .err none string, nbtC named],
+        (if p ≥ Minecraft_1_16_2 ∧ p < Minecraft_1_19 then [nbtC named, dimensionId p] else [dimensionId p, string]),
+        [i64, if p ≥ Minecraft_1_16_2 then varint else u8, varint],
+        onlyIf (p ≥ Minecraft_1_18) [varint],
+        [bool, bool, bool, bool],
+        onlyIf (p ≥ Minecraft_1_19) [deathPos],
+        onlyIf (p ≥ Minecraft_1_20) [varint]]
+      else fields [
+        [i32, u8, if p ≥ Minecraft_1_9_1 then i32 else u8],
+        onlyIf (p ≤ Minecraft_1_13_2) [u8],
+        onlyIf (p ≥ Minecraft_1_15) [i64],
+        [u8, str 16],
+        onlyIf (p ≥ Minecraft_1_14) [varint],
+        onlyIf (p ≥ Minecraft_1_8) [bool],
+        onlyIf (p ≥ Minecraft_1_15) [bool]]
+  | "packet.Respawn" => some <| (fun b => { body := b, vals := decide (p ≥ Minecraft_1_20_2) }) <|
+      let named := decide (p < Minecraft_1_20_2)
+      fields [
+        (if p ≥ Minecraft_1_16 then
+           (if p ≥ Minecraft_1_16_2 ∧ p < Minecraft_1_19 then [nbtC named, dimensionId p]
+            else [if p ≥ Minecraft_1_20_5 then varint else dimensionId p, string])
+         else [i32]),
+        onlyIf (p ≤ Minecraft_1_13_2) [u8],
+        onlyIf (p ≥ Minecraft_1_15) [i64],
+        [u8],
+        (if p ≥ Minecraft_1_16 then [u8, bool, bool] else [string]),
+        onlyIf (p ≥ Minecraft_1_16 ∧ p < Minecraft_1_19_3) [bool],
+        onlyIf (p ≥ Minecraft_1_19_3 ∧ p < Minecraft_1_20_2) [u8],
+        onlyIf (p ≥ Minecraft_1_19) [deathPos],
+        onlyIf (p ≥ Minecraft_1_20) [varint],
+        onlyIf (p ≥ Minecraft_1_21_2) [varint],
+        onlyIf (p ≥ Minecraft_1_20_2) [u8]]
   | "packet.HeaderAndFooter" => some <| mk <| seqs [component p, component p]
   | "packet.PlayerChatCompletion" => some <| mk <| seqs [varint, .arr .err none string]
   | "packet.ServerData" => some <| mk <| fields [
@@ -259,12 +311,13 @@ def fullTypes : List String := [
 def opaqueTypes : List String := [
   "packet.ServerLogin", "packet.Disconnect", "packet.ResourcePackRequest", "packet.ServerLinks", "packet.DialogShow",
   "packet.TabCompleteResponse", "packet.HeaderAndFooter", "packet.ServerData", "bossbar.BossBar",
-  "title.Text", "title.Subtitle", "title.Actionbar", "title.Legacy", "chat.SystemChat", "playerinfo.Upsert"]
+  "title.Text", "title.Subtitle", "title.Actionbar", "title.Legacy", "chat.SystemChat", "playerinfo.Upsert",
+  "packet.JoinGame", "packet.Respawn"]
 
 /-- registered types without a schema: exercised only by the Go-side encode→decode→re-encode check and the
     hostile-payload runs -/
 def unmodelledTypes : List String := [
-  "packet.JoinGame", "packet.Respawn", "packet.AvailableCommands", "legacytablist.PlayerListItem",
+  "packet.AvailableCommands", "legacytablist.PlayerListItem",
   "chat.KeyedPlayerChat", "chat.KeyedPlayerCommand"]
 
 def classOf (name : String) : String :=
